@@ -1,6 +1,8 @@
 //! Checks that use scnr's public API only (no feature).
 mod c01;
 mod c04;
+mod c08;
+mod c15;
 mod e2;
 mod fam;
 
@@ -14,6 +16,8 @@ fn main() {
         "C04" => c04::run("C04", tier),
         "C05" => c04::run("C05", tier),
         "C07" => c04::run("C07", tier),
+        "C08" => c08::run(tier),
+        "C15" => c15::run(tier),
         p => machinery(&format!("pubcheck does not know property {p}")),
     }
 }
